@@ -22,6 +22,10 @@ pub struct PoolOp {
     pub poison: Option<String>,
     /// cheap enough to be repeated thousands of times in long-haul mode
     pub cheap: bool,
+    /// ops of one family (> 0) have almost-identical arguments: they agree in most of what a
+    /// too-coarse cache key would cover and differ in something it might omit
+    #[serde(default)]
+    pub family: u32,
 }
 
 #[derive(Clone, Debug, Serialize, Deserialize)]
@@ -31,10 +35,10 @@ pub struct Pool {
 }
 
 fn push(v: &mut Vec<PoolOp>, op: Op, group: u8) {
-    v.push(PoolOp { op, group, poison: None, cheap: false });
+    v.push(PoolOp { op, group, poison: None, cheap: false, family: 0 });
 }
 fn push_poison(v: &mut Vec<PoolOp>, op: Op, group: u8, why: &str) {
-    v.push(PoolOp { op, group, poison: Some(why.to_string()), cheap: false });
+    v.push(PoolOp { op, group, poison: Some(why.to_string()), cheap: false, family: 0 });
 }
 
 /// Face point that lands in face triangle `tri` (0..9), beyond the face edge iff `reflected`.
@@ -397,10 +401,10 @@ pub fn build(seed: u64, size: usize) -> Pool {
     for o in a5::core::origin::get_origins() {
         let c = to_cartesian(o.axis);
         let inst = Some(rng.below(2) as u8);
-        ops.push(PoolOp { op: Op::CrsVertex { inst, x: F::of(c.x()), y: F::of(c.y()), z: F::of(c.z()) }, group: o.id, poison: None, cheap: true });
+        ops.push(PoolOp { op: Op::CrsVertex { inst, x: F::of(c.x()), y: F::of(c.y()), z: F::of(c.z()) }, group: o.id, poison: None, cheap: true, family: 0 });
         let e = 3e-6;
-        ops.push(PoolOp { op: Op::CrsVertex { inst, x: F::of(c.x() + e), y: F::of(c.y() - e), z: F::of(c.z()) }, group: o.id, poison: None, cheap: true });
-        ops.push(PoolOp { op: Op::CrsVertex { inst, x: F::of(c.x() + 1e-3), y: F::of(c.y()), z: F::of(c.z()) }, group: o.id, poison: Some("crs_point_off_frame".into()), cheap: true });
+        ops.push(PoolOp { op: Op::CrsVertex { inst, x: F::of(c.x() + e), y: F::of(c.y() - e), z: F::of(c.z()) }, group: o.id, poison: None, cheap: true, family: 0 });
+        ops.push(PoolOp { op: Op::CrsVertex { inst, x: F::of(c.x() + 1e-3), y: F::of(c.y()), z: F::of(c.z()) }, group: o.id, poison: Some("crs_point_off_frame".into()), cheap: true, family: 0 });
         if rng.pct(30) {
             push(&mut ops, Op::CrsVertex { inst: None, x: F::of(c.x()), y: F::of(c.y()), z: F::of(c.z()) }, o.id);
         }
@@ -428,6 +432,154 @@ pub fn build(seed: u64, size: usize) -> Pool {
             })
             .collect();
         push(&mut ops, Op::SphPolyArea { pts: tri }, 255);
+    }
+
+    // ---- families of near-identical calls (a too-coarse cache key shows only when such calls
+    //      follow each other)
+    let mut fam: u32 = 0;
+    let pushf = |ops: &mut Vec<PoolOp>, op: Op, group: u8, family: u32| {
+        ops.push(PoolOp { op, group, poison: None, cheap: false, family });
+    };
+    // (a) points a hair's breadth apart, on both sides of a cell edge, same resolution
+    for _ in 0..n(70) {
+        let &(c, g) = rng.pick(&base_cells);
+        let r = a5::get_resolution(c);
+        if r < 1 {
+            continue;
+        }
+        let (ctr, ring) = match (a5::cell_to_lonlat(c), a5::cell_to_boundary(c, Some(a5::core::cell::CellToBoundaryOptions { closed_ring: false, segments: Some(2) }))) {
+            (Ok(a), Ok(b)) if !b.is_empty() => (a, b),
+            _ => continue,
+        };
+        let v = *rng.pick(&ring);
+        if ctr.latitude().abs() > 85.0 || (v.longitude() - ctr.longitude()).abs() > 90.0 {
+            continue;
+        }
+        fam += 1;
+        let (dx, dy) = (ctr.longitude() - v.longitude(), ctr.latitude() - v.latitude());
+        for eps in [1e-7, -1e-7, 1e-5, -1e-5, 1e-4, -1e-4, 1e-3, -1e-3, 1e-2, -1e-2] {
+            if rng.pct(35) {
+                continue;
+            }
+            let (lon, lat) = (v.longitude() + eps * dx, (v.latitude() + eps * dy).clamp(-90.0, 90.0));
+            pushf(&mut ops, Op::LonLatToCell { lon: F::of(lon), lat: F::of(lat), res: r }, g, fam);
+            if rng.pct(15) {
+                pushf(&mut ops, Op::LonLatToCell { lon: F::of(lon), lat: F::of(lat), res: (r + 1).min(29) }, g, fam);
+            }
+        }
+        // bitwise neighbours of one point
+        let lon1 = f64::from_bits(v.longitude().to_bits() + 1);
+        pushf(&mut ops, Op::LonLatToCell { lon: F::of(v.longitude()), lat: F::of(v.latitude()), res: r }, g, fam);
+        pushf(&mut ops, Op::LonLatToCell { lon: F::of(lon1), lat: F::of(v.latitude()), res: r }, g, fam);
+    }
+    // (b) one cell, every boundary option; the same curve position on other faces / segments
+    for _ in 0..n(40) {
+        let &(c, g) = rng.pick(&base_cells);
+        let d = match a5::core::serialization::deserialize(c) {
+            Ok(d) if d.resolution >= 0 => d,
+            _ => continue,
+        };
+        fam += 1;
+        pushf(&mut ops, Op::CellToBoundaryDefault { cell: c }, g, fam);
+        for (closed, seg) in [(true, Some(1)), (false, Some(1)), (true, Some(2)), (false, Some(3)), (true, None), (false, None)] {
+            if rng.pct(60) {
+                pushf(&mut ops, Op::CellToBoundary { cell: c, closed, segments: seg }, g, fam);
+            }
+        }
+        pushf(&mut ops, Op::CellToLonLat { cell: c }, g, fam);
+        fam += 1;
+        for _ in 0..3 {
+            let o2 = rng.below(12) as u8;
+            let seg2 = if d.resolution == 0 { 0 } else { rng.below(5) as usize };
+            let twin = a5::core::utils::A5Cell { origin_id: o2, segment: seg2, s: d.s, resolution: d.resolution };
+            if let Ok(c2) = a5::core::serialization::serialize(&twin) {
+                pushf(&mut ops, Op::CellToLonLat { cell: c2 }, o2, fam);
+                pushf(&mut ops, Op::CellToBoundary { cell: c2, closed: true, segments: Some(1) }, o2, fam);
+                pushf(&mut ops, Op::GetPentagon { origin: o2, segment: seg2 as u32, s: d.s, res: d.resolution }, o2, fam);
+                pushf(&mut ops, Op::CellToParent { cell: c2, res: None }, o2, fam);
+                pushf(&mut ops, Op::CellToChildren { cell: c2, res: None }, o2, fam);
+            }
+        }
+        pushf(&mut ops, Op::CellToLonLat { cell: c }, g, fam);
+        pushf(&mut ops, Op::CellToParent { cell: c, res: None }, g, fam);
+        pushf(&mut ops, Op::CellToChildren { cell: c, res: None }, g, fam);
+        for dr in 0..3 {
+            pushf(&mut ops, Op::CellToChildren { cell: c, res: Some((d.resolution + dr).min(30)) }, g, fam);
+            pushf(&mut ops, Op::CellToParent { cell: c, res: Some((d.resolution - dr).max(-1)) }, g, fam);
+        }
+    }
+    // (c) projection: one face point under every face id; one point and its bitwise neighbours
+    for _ in 0..n(30) {
+        fam += 1;
+        let tri = rng.below(10) as usize;
+        let refl = rng.pct(40);
+        let (x, y) = slot_face_point(&mut rng, tri, refl);
+        for origin in 0..12u8 {
+            if rng.pct(50) {
+                pushf(&mut ops, Op::Inverse { t: Target::Tl, x: F::of(x), y: F::of(y), origin }, origin, fam);
+            }
+        }
+        let o = rng.below(12) as u8;
+        let x1 = f64::from_bits(x.to_bits() + 1);
+        let y1 = f64::from_bits(y.to_bits().wrapping_sub(1));
+        pushf(&mut ops, Op::Inverse { t: Target::Tl, x: F::of(x1), y: F::of(y), origin: o }, o, fam);
+        pushf(&mut ops, Op::Inverse { t: Target::Tl, x: F::of(x), y: F::of(y1), origin: o }, o, fam);
+        pushf(&mut ops, Op::Inverse { t: Target::Tl, x: F::of(x), y: F::of(y), origin: o }, o, fam);
+        pushf(&mut ops, Op::Inverse { t: Target::Tl, x: F::of(-x), y: F::of(y), origin: o }, o, fam);
+        pushf(&mut ops, Op::Inverse { t: Target::Tl, x: F::of(x), y: F::of(-y), origin: o }, o, fam);
+        if let Ok(sp) = fresh.inverse(Face::new(x, y), o) {
+            let (t, p) = (sp.theta().get(), sp.phi().get());
+            for origin in 0..12u8 {
+                if rng.pct(30) {
+                    pushf(&mut ops, Op::Forward { t: Target::Tl, theta: F::of(t), phi: F::of(p), origin }, origin, fam);
+                }
+            }
+            pushf(&mut ops, Op::Forward { t: Target::Tl, theta: F::of(t), phi: F::of(p), origin: o }, o, fam);
+            pushf(&mut ops, Op::Forward { t: Target::Tl, theta: F::of(f64::from_bits(t.to_bits() + 1)), phi: F::of(p), origin: o }, o, fam);
+            pushf(&mut ops, Op::Forward { t: Target::Tl, theta: F::of(t + 2.0 * PI), phi: F::of(p), origin: o }, o, fam);
+        }
+    }
+    // (d) curve functions: one position / point under every orientation and neighbouring depths
+    for _ in 0..n(20) {
+        fam += 1;
+        let res = rng.range(2, 20) as u32;
+        let side = (1u64 << res) as f64;
+        let i = rng.uniform(0.0, side);
+        let j = rng.uniform(0.0, side - i);
+        let s0 = rng.next_u64() & ((1u64 << (2 * res)) - 1);
+        for orient in 0..6u8 {
+            pushf(&mut ops, Op::IjToS { x: F::of(i), y: F::of(j), res, orient }, 255, fam);
+            pushf(&mut ops, Op::SToAnchor { s: s0, res, orient }, 255, fam);
+        }
+        pushf(&mut ops, Op::SToAnchor { s: s0, res: res + 1, orient: 0 }, 255, fam);
+        pushf(&mut ops, Op::SToAnchor { s: s0 ^ 1, res, orient: 0 }, 255, fam);
+        pushf(&mut ops, Op::IjToS { x: F::of(i), y: F::of(j), res: res + 1, orient: 0 }, 255, fam);
+    }
+    // (e) compaction: one set, a permutation of it, and the set with one member changed
+    for _ in 0..n(20) {
+        let &(c, g) = rng.pick(&base_cells);
+        let r = a5::get_resolution(c);
+        if !(0..=24).contains(&r) {
+            continue;
+        }
+        if let Ok(mut set) = a5::cell_to_children(c, Some(r + 2)) {
+            if set.len() < 4 || set.len() > 100 {
+                continue;
+            }
+            fam += 1;
+            pushf(&mut ops, Op::Compact { cells: set.clone() }, g, fam);
+            rng.shuffle(&mut set);
+            pushf(&mut ops, Op::Compact { cells: set.clone() }, g, fam);
+            let mut minus = set.clone();
+            minus.pop();
+            pushf(&mut ops, Op::Compact { cells: minus.clone() }, g, fam);
+            let mut dup = set.clone();
+            dup.push(set[0]);
+            pushf(&mut ops, Op::Compact { cells: dup }, g, fam);
+            pushf(&mut ops, Op::Uncompact { cells: vec![c], res: r + 2 }, g, fam);
+            pushf(&mut ops, Op::Uncompact { cells: vec![c], res: r + 1 }, g, fam);
+            pushf(&mut ops, Op::Uncompact { cells: minus.iter().copied().take(3).collect(), res: r + 2 }, g, fam);
+        }
     }
 
     // ---- low-level public functions
